@@ -18,7 +18,7 @@ def aeaPhi1zLoop (eccent qs : α) : Nat → α → Except Err α
   | n+1, phi =>
     let dphi := aeaPhi1zStep eccent qs phi
     let phi := phi + dphi
-    if le (abs dphi) 1.0e-7 then .ok phi else aeaPhi1zLoop eccent qs n phi
+    if le (abs dphi) 1e-7 then .ok phi else aeaPhi1zLoop eccent qs n phi
 
 /-- `for i := 1; i <= 25; i++` -/
 def aeaPhi1z (eccent qs : α) : Except Err α :=
